@@ -138,7 +138,7 @@ PROPS["C09"] = dict(
 )
 
 PROPS["C10"] = dict(
-    gen=lambda rng, n, tier: F.c10(rng, n),
+    gen=lambda rng, n, tier: F.c10(rng, n) + F.c10_big(rng),
     budget=(3000, 30000),
     absolute=False,
     in_domain=always,
@@ -297,6 +297,12 @@ def oracle_c12(cases, impl, ctx):
 def oracle_c14(cases, impl, ctx):
     n, bad = 0, []
     for gid, m in groups(cases, impl).items():
+        if "A" in m and "AB_fail" in m:
+            n += 1
+            a, ab = m["A"][1], m["AB_fail"][1]
+            if not (a[0] == "0" and ab[0] == "1" and ab[1].startswith(a[1])):
+                bad.append(fail_payload("a failing record lost or altered the output of the earlier records, or was not reported", m))
+            continue
         if "clean" not in m:
             continue
         clean = m["clean"][1]
@@ -338,7 +344,7 @@ def reg(pid, **kw):
     PROPS[pid] = kw
 
 
-reg("C02", gen=lambda rng, n, tier: F.c02(rng, n), budget=(4000, 40000), absolute=False,
+reg("C02", gen=lambda rng, n, tier: F.c02(rng, n) + F.c02_big(rng), budget=(4000, 40000), absolute=False,
     oracle=oracle_same("general", "fast", "the fast lane and the general path disagree on the same options and input"),
     nontrivial=lambda c, m: c.entry == "fast" and m[0] == "0" and len(m[1]) > 1,
     rule="fast-eligible option sets (1-byte delimiter; bounds ascending/descending/repeated/negative/mixed/open/"
@@ -349,7 +355,7 @@ reg("C02", gen=lambda rng, n, tier: F.c02(rng, n), budget=(4000, 40000), absolut
               "C02_early_stop_never_changes_a_range", "C02_parser_output_qualifies"], release=True,
     assumptions=["delimiter byte < 128 (a 1-byte -d from the command line is ASCII)", "records with < 2^31 fields"])
 
-reg("C03", gen=lambda rng, n, tier: F.c03(rng, n), budget=(3000, 30000), absolute=False,
+reg("C03", gen=lambda rng, n, tier: F.c03(rng, n) + F.c03_big(rng), budget=(3000, 30000), absolute=False,
     oracle=oracle_all_same("plain", "-M and the same invocation without -M disagree"),
     nontrivial=lambda c, m: c.tags.get("role") == "stream" and m[0] == "0" and len(m[1]) > 1,
     rule="-M-compatible option sets (1-byte delimiter, strictly ascending bounds incl. one trailing open range, "
@@ -358,7 +364,7 @@ reg("C03", gen=lambda rng, n, tier: F.c03(rng, n), budget=(3000, 30000), absolut
          "the real binary with -M, and the real binary without -M",
     theorems=[], assumptions=["ranges that straddle the end of a record are excluded by the statement"])
 
-reg("C04", gen=lambda rng, n, tier: F.c04(rng, n, exhaustive_upto=(7 if tier == "quick" else 10)),
+reg("C04", gen=lambda rng, n, tier: F.c04(rng, n, exhaustive_upto=(7 if tier == "quick" else 10)) + F.c04_big(rng),
     budget=(3000, 30000), absolute=False, oracle=oracle_c04,
     nontrivial=lambda c, m: len(c.seg) > 1,
     rule="-M on one input under several segmentations: every segmentation of inputs up to 7 bytes (quick; 10 thorough), "
@@ -400,7 +406,7 @@ reg("C12", gen=lambda rng, n, tier: F.c12(rng, n, exhaustive_len=(3 if tier == "
          "stdin; oracle: exit status 0 or 1 within the timeout",
     theorems=[], assumptions=["regexes outside the modelled family are covered by the exit-status oracle only"])
 
-reg("C14", gen=lambda rng, n, tier: F.c14(rng, n), budget=(2500, 25000), absolute=False, oracle=oracle_c14,
+reg("C14", gen=lambda rng, n, tier: F.c14(rng, n) + F.c14_big(rng), budget=(2500, 25000), absolute=False, oracle=oracle_c14,
     compare=lambda c: not c.extra,
     nontrivial=lambda c, m: bool(c.extra),
     rule="every mode; read(0) starts failing (EIO) after k bytes, write(1) accepts k bytes then fails (ENOSPC), "
